@@ -79,10 +79,11 @@ def run(repo, chk):
     stdlib = it.load(STDLIB)
     prog = it.load(PROGRAM)
     sym = it.load('hidc/codegen/symbols.py')
-    DT = prog['DataType']
+    astpkg = it.load('hidc/ast/__init__.py')
+    DT = astpkg['DataType']
     AM = sym['AccessMode']
     CAT = sym['ConcreteArrayType']
-    Ident = prog['Ident']
+    Ident = astpkg['Ident']
     funcs = stdlib['stdlib_funcs']
 
     # ---------------- D1 -------------------------------------------------------------
@@ -117,7 +118,7 @@ def run(repo, chk):
             break
     # abstract signature of a concrete one: R and RC both map to `const`
     CS = sym['ConcreteSignature']
-    AT_ = prog['ArrayType']
+    AT_ = astpkg['ArrayType']
     for acc, c in ((AM.R, True), (AM.RC, True), (AM.RW, False)):
         ap = CS(Ident('write'), (CAT(DT.BYTE, acc),)).abstract_params
         chk.expect(ap == (AT_(DT.BYTE, c),), 'C17.D1', f'abstract_params({acc.name})', f'{ap}', 'hidc/codegen/symbols.py')
